@@ -119,3 +119,19 @@ for fn, pre, props in (('put', 'l1b_put', ['C02', 'C01', 'C03']), ('get_at', 'l1
             quick_orders = {'put': (0, 5, 8, 9, 10), 'get_at': (0, 6, 7, 9, 11), 'get': (0, 3, 8, 9, 10, 11)}[fn]
             ob(f'lower::{pre}_o{o}_h{h}', props, fns, tier='quick' if (h == quick_h and o in quick_orders) else 'thorough', kind='config-bounded',
                bound=LB % (h, o), assumes=LOWER_ASSUMES, timeout=900, cover=(h == quick_h and o in (0, 9)))
+
+# ------------------------------------------------------------------------------------------------
+# C06 / C05 / C09: initialisation and recovery of the lower allocator, every frame count
+# ------------------------------------------------------------------------------------------------
+ob('bitfield::l1a_zeros_lemma_prefix', ['C06', 'C05'], ['(lemma) Z4: a prefix pattern of k zero bits has k zeros'], bound='every k <= 512', cover=False)
+for b in range(1, 5):
+    FB = f'every frame count with {b} bitfield(s): ({(b-1)*512}, {b*512}], any previous metadata contents'
+    ob(f'lower::c06_free_all_b{b}', ['C06', 'C18'], ['lower::Lower::free_all'], kind='config-bounded', bound=FB,
+       assumes=['bitfield::Bitfield::fill (l1a_fill_count_zeros)', 'bitfield::Bitfield::set (l1a_set_range)'], cover=(b == 2))
+    ob(f'lower::c06_reserve_all_b{b}', ['C06', 'C18'], ['lower::Lower::reserve_all'], kind='config-bounded', bound=FB,
+       assumes=['bitfield::Bitfield::fill (l1a_fill_count_zeros)'], cover=(b == 2))
+    ob(f'lower::c05_recover_b{b}', ['C05', 'C09'], ['lower::Lower::recover'], kind='config-bounded',
+       bound=FB + ' (ANY persistent state: no invariant assumed except bits beyond the range set)',
+       assumes=['bitfield::Bitfield::count_zeros (l1a_fill_count_zeros)', 'ghost zeros lemma Z2 (l1a_zeros_lemmas_o*)'], cover=(b == 2))
+ob('lower::c09_init_zero_frames', ['C09', 'C06'], ['lower::Lower::free_all', 'lower::Lower::reserve_all', 'lower::Lower::recover', 'lower::Lower::stats'],
+   bound='frame count 0, every initialisation mode', cover=False)
